@@ -811,3 +811,141 @@ def r19(ctx, R):
                 R.check(not bad, c, w, 'length for .pos, length / time for .vel in every term', {'statement': ast.unparse(s)[:110], 'terms of another dimension': bad})
     if n < 18:
         raise AnalysisError(f'C02.R19: only {n} position / velocity statements decided')
+
+
+_COMP_ATTRS = ('impl', 'expl', 'comp1', 'comp2', 'comp3', 'diff', 'alg', 'exp')
+
+
+def _strip_comp(n):
+    while isinstance(n, ast.Attribute) and n.attr in _COMP_ATTRS:
+        n = n.value
+    return n
+
+
+def _dim1(n):
+    """dimension of a first-order sweeper expression as a monomial in U (solution) and T (time): dt -> T, u / tau / integral / residual
+    entries -> U, f entries and eval_f(..) -> U/T, entries of matrices, nodes, weights and numbers -> 1; solve_system(rhs, factor, ..)
+    has the dimension of rhs and REQUIRES a factor of dimension T"""
+    import sympy as sp
+    U, T = sp.Symbol('U', positive=True), sp.Symbol('T', positive=True)
+    if isinstance(n, ast.Constant) and isinstance(n.value, (int, float)) and not isinstance(n.value, bool):
+        return sp.nsimplify(n.value) if n.value != 0 else sp.Integer(0)
+    if isinstance(n, (ast.Attribute, ast.Name, ast.Subscript)):
+        base = _strip_comp(n)
+        b = ast.unparse(base)
+        if b in ('L.dt', 'self.level.dt', 'lvl.dt'):
+            return T
+        if b in ('L.uend', 'lvl.uend'):
+            return U
+        if isinstance(base, ast.Subscript):
+            v = ast.unparse(base.value)
+            if v in ('L.f', 'lvl.f', 'self.level.f', 'L.fold', 'lvl.fold'):
+                return U / T
+            if v in ('L.u', 'lvl.u', 'self.level.u', 'L.tau', 'lvl.tau', 'L.uold', 'lvl.uold', 'integral', 'me', 'res', 'p', 'rhs'):
+                return U
+            if v.startswith('self.') and not v.startswith('self.level'):
+                return sp.Integer(1)
+        if isinstance(base, ast.Name) and _DIM_CTX['fn'] is not None and base.id not in _DIM_CTX['stack']:
+            # a local: the dimension of the value of its first plain assignment in the function
+            defs = sorted((a for a in ast.walk(_DIM_CTX['fn']) if isinstance(a, ast.Assign) and len(a.targets) == 1 and isinstance(a.targets[0], ast.Name) and a.targets[0].id == base.id), key=lambda a: a.lineno)
+            if defs:
+                _DIM_CTX['stack'].add(base.id)
+                try:
+                    return _dim1(defs[0].value)
+                finally:
+                    _DIM_CTX['stack'].discard(base.id)
+        raise _DimUnk(ast.unparse(n)[:40])
+    if isinstance(n, ast.Call):
+        f = ast.unparse(n.func).split('.')[-1]
+        if f in ('eval_f', 'get_full_f'):
+            return U / T
+        if f in ('apply_mass_matrix', 'dtype_u', 'dtype_f') and len(n.args) == 1 and not n.keywords:
+            return _dim1(n.args[0])
+        if f.startswith('solve_system') and len(n.args) >= 2:
+            d = _dim1(n.args[1])
+            if sp.simplify(d / T).free_symbols:
+                raise _DimBad(f'the factor handed to {f} has dimension {d}, not time')
+            return _dim1(n.args[0])
+        raise _DimUnk(ast.unparse(n)[:40])
+    if isinstance(n, ast.UnaryOp) and isinstance(n.op, ast.USub):
+        return -_dim1(n.operand)
+    if isinstance(n, ast.BinOp):
+        if isinstance(n.op, ast.Pow) and isinstance(n.right, ast.Constant) and isinstance(n.right.value, int):
+            return _dim1(n.left) ** n.right.value
+        a, b = _dim1(n.left), _dim1(n.right)
+        if isinstance(n.op, ast.Add):
+            return a + b
+        if isinstance(n.op, ast.Sub):
+            return a - b
+        if isinstance(n.op, ast.Mult):
+            return a * b
+        if isinstance(n.op, ast.Div):
+            return a / b
+    raise _DimUnk(ast.unparse(n)[:40])
+
+
+class _DimBad(Exception):
+    pass
+
+
+_DIM_CTX = {'fn': None, 'stack': set()}
+
+
+def first_order_dimension_defects(stmt):
+    """additive terms of `target (+=|-=|=) value` whose dimension differs from that of the target; [] when consistent"""
+    import sympy as sp
+    tgt = stmt.target if isinstance(stmt, ast.AugAssign) else stmt.targets[0]
+    td = _dim1(tgt)
+    try:
+        e = sp.expand(_dim1(stmt.value))
+    except _DimBad as e:
+        return [str(e)]
+    return [str(x) for x in sp.Add.make_args(e) if x != 0 and sp.simplify(x / td).free_symbols]
+
+
+@rule('C02', 'C02.R20', 'every sweeper is dimensionally consistent: with dt -> T, node values / tau / integrals / residuals -> U, right-hand sides -> U/T and quadrature entries dimensionless, every term accumulated into a node value, an integral, a residual or the end value has dimension U, and the factor handed to solve_system* is a time (u - factor*f = rhs) - all sweepers of the library AND the projects; a lost or doubled dt, an f added without its weight*dt, a matrix entry used as factor without dt are unit errors', floor=85)
+def r20(ctx, R):
+    from ..model import Repo
+    ctl = ast.parse('L.u[m + 1] += self.QI[m + 1, j] * L.f[j]').body[0]
+    ctl2 = ast.parse('L.u[m + 1] = P.solve_system(rhs, self.QI[m + 1, m + 1], L.u[m + 1], t)').body[0]
+    if not first_order_dimension_defects(ctl) or not first_order_dimension_defects(ctl2):
+        raise AnalysisError('C02.R20: the embedded controls (f without dt; dimensionless solver factor) are not recognised')
+    big = ctx.memo('repo_with_projects', lambda: Repo(ctx.repo.root, extra_dirs=('pySDC/projects',)))
+    base = big.cls('pySDC/core/sweeper.py', 'Sweeper')
+    n = 0
+    second_order = {'verlet', 'boris_2nd_order', 'RungeKuttaNystrom'}
+    for ci in [base] + list(big.subclasses(base)):
+        if ci.name in second_order or any(getattr(k, 'name', None) in second_order for k in ci.mro):
+            continue  # position / velocity forms have their own table (C02.R19)
+        if ci.module.relpath.startswith('pySDC/projects/DAE/'):
+            continue  # the DAE sweepers iterate on the DERIVATIVE (their unknown is u', solve_system has another signature): another dimension table, not decided
+        for m, fn in ci.methods.items():
+            if m not in ('update_nodes', 'integrate', 'compute_end_point', 'compute_residual', 'predict'):
+                continue
+            k = 0
+            _DIM_CTX['fn'], _DIM_CTX['stack'] = fn, set()
+            for s in ast.walk(fn):
+                if isinstance(s, ast.AugAssign) and isinstance(s.op, (ast.Add, ast.Sub)):
+                    tgt = s.target
+                elif isinstance(s, ast.Assign) and len(s.targets) == 1 and isinstance(s.value, ast.Call) and ast.unparse(s.value.func).split('.')[-1].startswith('solve_system'):
+                    tgt = s.targets[0]
+                else:
+                    continue
+                try:
+                    _dim1(tgt)
+                except (_DimUnk, _DimBad):
+                    continue
+                k += 1
+                w = f'{ci.module.relpath}:{ci.name}.{m}'
+                c = f'{ci.name}.{m} :: `{ast.unparse(tgt)}` statement #{k} is dimensionally consistent'
+                try:
+                    bad = first_order_dimension_defects(s)
+                except _DimUnk as e:
+                    R.note(c, w, f'not decided: `{e}` has no dimension in the table')
+                    continue
+                R.fn(w)
+                n += 1
+                R.check(not bad, c, w, 'dimension U in every term; a time as solver factor', {'statement': ast.unparse(s)[:120], 'defects': bad})
+    _DIM_CTX['fn'] = None
+    if n < 85:
+        raise AnalysisError(f'C02.R20: only {n} statements decided')
